@@ -3,6 +3,7 @@ import Hive.Proofs.OMapPtr
 import Hive.Proofs.OMapConc
 import Hive.Proofs.OMapLin
 import Hive.Proofs.OMapIter
+import Hive.Proofs.OMapDict
 import Hive.Model.OMapLine
 import Hive.Gen.C11_Skel
 /-!
@@ -81,6 +82,36 @@ theorem C11_omap_refines (h : List MOp) (k v : Nat) :
 example : (AMap.run [.set 1 10, .set 2 20, .set 3 30, .set 1 11, .del 2, .set 2 21]) = [(1, 11), (3, 30), (2, 21)]
     ∧ (PMap.run [.set 1 10, .set 2 20, .set 3 30, .set 1 11, .del 2, .set 2 21]).forEachReverse = [(2, 21), (3, 30), (1, 11)]
     ∧ birth [.set 1 10, .set 2 20, .set 3 30, .set 1 11, .del 2, .set 2 21] 2 = some 5 := by decide
+
+/-! ## the hash index (dictionary) and its rebuilds -/
+
+/-- **Rebuilding the hash index is invisible.**  `OrderedMap.dictionary` is a `ShrinkingMap` with the default options:
+every deletion that takes effect counts (`deletedKeys`), and when 100 deletions *and* ten times the remaining size are
+reached the Go map is rebuilt by copying every entry into a fresh map (`ShrinkingMap.shrink`); `Clear` installs a
+fresh dictionary.  For every history the ordered map with this bookkeeping (`DMap`, the rebuild modelled as that copy)
+is exactly the pointer-level map without it (`PMap.run`, the object of `C11_omap_order`, `C11_omap_refines`,
+`C11_weak_iteration`); the counter never exceeds the number of `Delete`s; and right after a deletion that took
+effect the counter never asks for a rebuild (it was done).  -/
+theorem C11_dict_shrink_transparent (h : List MOp) :
+    (DMap.run h).p = PMap.run h ∧
+    (DMap.run h).dk ≤ (h.filter isDel).length ∧
+    (∀ k, ((DMap.run h).delete k).2 = true →
+      shouldShrink SOpts.default ((DMap.run h).delete k).1.dk ((DMap.run h).delete k).1.p.dict.length = false) := by
+  refine ⟨DMap.run_p h, ?_, fun k hk => DMap.delete_settled _ k hk⟩
+  have := DMap.applyOps_dk_le DMap.empty h
+  simpa [DMap.run, DMap.empty] using this
+
+/-- the thresholds of the default options: 100 deletions with at most 10 keys left rebuild, 11 keys left do not (yet),
+99 deletions never, an empty map never -/
+example : shouldShrink SOpts.default 100 10 = true ∧ shouldShrink SOpts.default 100 11 = false ∧
+    shouldShrink SOpts.default 110 11 = true ∧ shouldShrink SOpts.default 99 1 = false ∧
+    shouldShrink SOpts.default 150 0 = false ∧ shouldShrink ⟨0, 0⟩ 1000 1 = false ∧ shouldShrink ⟨0, 5⟩ 5 100 = true := by decide
+
+/-- the 100th deletion with two keys left rebuilds the index and resets the counter; the 99th does not -/
+example :
+    let d : DMap := { p := PMap.run [.set 0 0, .set 1 1, .set 2 2], dk := 99, shrinks := 0 }
+    (d.delete 1).1.shrinks = 1 ∧ (d.delete 1).1.dk = 0 ∧ (d.delete 1).1.p.forEach = [(0, 0), (2, 2)] ∧
+    (d.delete 7).1.dk = 99 ∧ (({ d with dk := 98 } : DMap).delete 1).1.dk = 99 := by decide
 
 /-! ## prior presence -/
 
@@ -683,5 +714,91 @@ theorem C11_skeleton_OrderedMap_Size : skel_OrderedMap_Size =
 open Hive.Gen.C11Skel in
 theorem C11_skeleton_OrderedMap_IsEmpty : skel_OrderedMap_IsEmpty =
     ["call o.Size", "return"] := by decide
+
+/-! ### the dictionary layer and the shapes of the anchored types
+
+`ShrinkingMap.delete` counts, removes, asks `shouldShrink` and calls `shrink` in this order; `shouldShrink` has the
+three guarded early returns of `Hive.OMap.shouldShrink`; `Delete`/`Set`/`Compute`/`Clear` hold the map's own mutex
+exclusively, `Get`/`Has` shared — leaves below the ordered map's mutex.  The type facts pin the fields the models are
+written against (`PMap`: `head`/`tail`/`dictionary`/`size`; `Node`: `key`/`value`/`prev`/`next`; `DMap.dk`:
+`deletedKeys int`; `SOpts`; one `applyMutex` next to the embedded readable set; the arithmetic's counter type `int`). -/
+
+open Hive.Gen.C11Skel in
+theorem C11_skeleton_ShrinkingMap_delete : skel_ShrinkingMap_delete =
+    ["if{", "return", "}if", "helper delete", "call s.shouldShrink", "if{", "call s.shrink", "}if", "return"] := by decide
+
+open Hive.Gen.C11Skel in
+theorem C11_skeleton_ShrinkingMap_shouldShrink : skel_ShrinkingMap_shouldShrink =
+    ["if{", "return", "}if", "if{", "if{", "return", "}if", "if{", "return", "}if", "}if", "if{",
+      "if{", "return", "}if", "}if", "return"] := by decide
+
+open Hive.Gen.C11Skel in
+theorem C11_skeleton_ShrinkingMap_shrink : skel_ShrinkingMap_shrink = ["for{", "}for"] := by decide
+
+open Hive.Gen.C11Skel in
+theorem C11_skeleton_ShrinkingMap_Delete : skel_ShrinkingMap_Delete =
+    ["lock s.mutex", "defer unlock s.mutex", "if{", "return", "}if", "call s.delete", "return"] := by decide
+
+open Hive.Gen.C11Skel in
+theorem C11_skeleton_ShrinkingMap_Set : skel_ShrinkingMap_Set =
+    ["lock s.mutex", "defer unlock s.mutex", "return"] := by decide
+
+open Hive.Gen.C11Skel in
+theorem C11_skeleton_ShrinkingMap_Get : skel_ShrinkingMap_Get =
+    ["rlock s.mutex", "defer runlock s.mutex", "return"] := by decide
+
+open Hive.Gen.C11Skel in
+theorem C11_skeleton_ShrinkingMap_Has : skel_ShrinkingMap_Has =
+    ["rlock s.mutex", "defer runlock s.mutex", "return"] := by decide
+
+open Hive.Gen.C11Skel in
+theorem C11_skeleton_ShrinkingMap_Compute : skel_ShrinkingMap_Compute =
+    ["lock s.mutex", "defer unlock s.mutex", "return"] := by decide
+
+open Hive.Gen.C11Skel in
+theorem C11_skeleton_ShrinkingMap_Clear : skel_ShrinkingMap_Clear =
+    ["lock s.mutex", "defer unlock s.mutex"] := by decide
+
+open Hive.Gen.C11Skel in
+theorem C11_skeleton_setArithmetic_elementsCollector : skel_setArithmetic_elementsCollector =
+    ["func{", "func{", "return", "}func", "call s.Compute", "call opposingSet.Delete", "if{", "call targetSet.Add", "}if",
+      "}func", "return"] := by decide
+
+open Hive.Gen.C11Skel in
+theorem C11_skeleton_type_OrderedMap : skel_type_OrderedMap =
+    ["struct", "head *Element[K,V]", "tail *Element[K,V]", "dictionary *shrinkingmap.ShrinkingMap[K,*Element[K,V]]",
+      "size int", "mutex sync.RWMutex"] := by decide
+
+open Hive.Gen.C11Skel in
+theorem C11_skeleton_type_Element : skel_type_Element =
+    ["struct", "key K", "value V", "prev *Element[K,V]", "next *Element[K,V]"] := by decide
+
+open Hive.Gen.C11Skel in
+theorem C11_skeleton_type_SerializableOrderedMap : skel_type_SerializableOrderedMap =
+    ["struct", "embedded *orderedmap.OrderedMap[K,V]"] := by decide
+
+open Hive.Gen.C11Skel in
+theorem C11_skeleton_type_set : skel_type_set =
+    ["struct", "embedded *readableSet[ElementType]", "applyMutex sync.RWMutex"] := by decide
+
+open Hive.Gen.C11Skel in
+theorem C11_skeleton_type_readableSet : skel_type_readableSet =
+    ["struct", "embedded *serializableorderedmap.SerializableOrderedMap[T,types.Empty]"] := by decide
+
+open Hive.Gen.C11Skel in
+theorem C11_skeleton_type_setMutations : skel_type_setMutations =
+    ["struct", "addedElements Set[ElementType]", "deletedElements Set[ElementType]"] := by decide
+
+open Hive.Gen.C11Skel in
+theorem C11_skeleton_type_setArithmetic : skel_type_setArithmetic =
+    ["struct", "embedded *shrinkingmap.ShrinkingMap[ElementType,int]"] := by decide
+
+open Hive.Gen.C11Skel in
+theorem C11_skeleton_type_ShrinkingMap : skel_type_ShrinkingMap =
+    ["struct", "m map[K]V", "deletedKeys int", "opts *Options", "mutex sync.RWMutex"] := by decide
+
+open Hive.Gen.C11Skel in
+theorem C11_skeleton_type_Options : skel_type_Options =
+    ["struct", "shrinkingThresholdRatio float32", "shrinkingThresholdCount int"] := by decide
 
 end Hive.OMap
